@@ -6,7 +6,7 @@ import os
 from .. import cases
 
 TITLE = "Alignment validity checks accept exactly partitions and covers"
-DECIDING = ["M-CHECK", "M-CHECK-SOFT", "M-CTOR", "M-ORDER", "M-CHECK-AFTER-EDIT", "M-CHECK-SEQUENCE"]
+DECIDING = ["M-CHECK", "M-CHECK-SOFT", "M-CTOR", "M-ORDER", "M-CHECK-AFTER-EDIT", "M-CHECK-SEQUENCE", "M-CHECK-CONCURRENT"]
 LEVEL = "exploration"
 RULE = ("seeded random continua up to 4x5 units (incl. identical units across annotators, unlabelled units) x candidate "
         "alignments: random valid partitions and near-valid mutants (unit dropped, whole unitary alignment dropped, unit "
@@ -14,7 +14,7 @@ RULE = ("seeded random continua up to 4x5 units (incl. identical units across an
         "foreign unit added once, all-empty unitary alignment added, one annotator named in two slots of a unitary alignment, "
         "the same unit twice in one unitary alignment, slots permuted, unitary alignments permuted, up to "
         "3 mutations combined), the alignment without any unitary alignment, and check / same-size edit of the continuum object (remove + add) / check "
-        "again histories, sequences of checks on one alignment object (against its own continuum, another one, without argument), and continua / alignments built and pickled in another process under another hash seed, checked here against objects built "
+        "again histories, one alignment object of 2 400 - 4 000 unitary alignments checked by 4 user threads at once, sequences of checks on one alignment object (against its own continuum, another one, without argument), and continua / alignments built and pickled in another process under another hash seed, checked here against objects built "
         "here; thorough tier also enumerates ALL partitions of tiny continua x every single mutation. "
         "Each candidate is judged by Alignment.check(), SoftAlignment.check(), both constructors with "
         "check_validity=True, check(continuum) with the continuum passed explicitly, before and after shuffling; the "
@@ -359,7 +359,52 @@ def check_sequence_case(ctx, case):
                 break
 
 
+def check_concurrent_case(ctx, case):
+    """ONE (large) alignment object checked by several user threads at once, against the continuum it partitions and against
+    an equal continuum built separately: every check gives the verdict the same call gives alone."""
+    from pygamma_agreement.alignment import SetPartitionError
+    from . import _align_common as ac
+    n_units = case["units_per_annotator"]
+    names = cases.ANNOTATOR_NAMES[:case["annotators"]]
+    cspec = {"ann": {a: [[float(3 * i + k), float(3 * i + k + 2), "x"] for i in range(n_units)] for k, a in enumerate(names)}}
+    # singletons in a scrambled order (so that an implementation that re-orders its unitary alignments has work to do)
+    asp = [{a: (i if a == b else None) for a in names} for b in names for i in range(n_units)]
+    import random as _r
+    _r.Random(case["order_seed"]).shuffle(asp)
+    if case.get("drop"):
+        asp = asp[:-1]
+    C, C2 = cases.build_continuum(cspec), cases.build_continuum(cspec)
+    expected = "SetPartitionError" if case.get("drop") else "ok"
+    for soft in (False, True):
+        al = cases.build_alignment(cspec, asp, continuum=C, soft=soft)
+
+        def work(k):
+            out = []
+            for r in range(case["repeat"]):
+                try:
+                    al.check(C2 if (k + r) % 2 else None)
+                    out.append("ok")
+                except SetPartitionError:
+                    out.append("SetPartitionError")
+                except Exception as e:
+                    out.append("other:" + type(e).__name__)
+            return out
+        for k, (res, exc) in enumerate(ac.concurrent_calls([(lambda k=k: work(k)) for k in range(case["threads"])])):
+            mon = "M-CHECK-SOFT" if soft else "M-CHECK"
+            ctx.count(mon)
+            ctx.count("M-CHECK-CONCURRENT")
+            if exc is not None:
+                ctx.fail_exc(f"concurrent-checks:harness-thread-raises:{type(exc).__name__}", exc, monitor=mon)
+            elif any(v != expected for v in res):
+                bad = [v for v in res if v != expected]
+                ctx.fail(("soft" if soft else "partition") + ":concurrent-checks-of-one-alignment-object:" +
+                         ("accepted" if bad[0] == "ok" else ("rejected" if bad[0] == "SetPartitionError" else bad[0].replace("other:", "raises-"))),
+                         {"thread": k, "wrong_verdicts": len(bad), "of": len(res), "expected": expected, "unitary_alignments": len(asp)}, monitor=mon)
+
+
 def check_case(ctx, case):
+    if "threads" in case:
+        return check_concurrent_case(ctx, case)
     if "sequence" in case:
         return check_sequence_case(ctx, case)
     if "items" in case:
@@ -404,6 +449,12 @@ def run(ctx):
         case = {"continuum": cspec, "alignment": asp, "mutations": muts}
         ctx.begin_case(case)
         ctx.observe("mutations", "close-large-coordinates+" + muts[0])
+        check_case(ctx, case)
+    # one large alignment object checked by several user threads at once
+    for k0 in range(ctx.scale(2, 12)):
+        case = {"threads": 4, "annotators": 2, "units_per_annotator": rng.choice([1200, 2000]), "repeat": 6, "order_seed": rng.randrange(10 ** 6), "drop": k0 % 2 == 1}
+        ctx.begin_case(case)
+        ctx.observe("mutations", "concurrent-checks-of-one-alignment-object")
         check_case(ctx, case)
     # one alignment object checked several times in a row against its own continuum, another one, its own again
     for _ in range(ctx.scale(20, 400)):
